@@ -6,7 +6,7 @@
    [noload_word], [subalign_text], [header_addr_text]) and proofs: Proofs/TablesAll.v.
 
    Literal texts of the model with NO template constant to compare with (plain string literals in the Rust):
-   "/DISCARD/ :", "*(*);", " (NOLOAD) :", " (NOLOAD)", "SECTIONS", "{", "}", "__romPos", "0x0", "_gp" as a symbol
+   "/DISCARD/ :", the wildcard discard line, " (NOLOAD) :", " (NOLOAD)", "SECTIONS", "{", "}", "__romPos", "0x0", "_gp" as a symbol
    name, ".", "0x00000000", ".noload", "noload", "alloc", "KEEP(", ")", "*", "0".
    Template constants with no counterpart in the model: none. *)
 From Slinky Require Import Model.Types Model.Generated Model.Runtime Model.Style Model.Script Model.Writer.
